@@ -385,6 +385,17 @@ class World:
                                          "id": "ff"}))
         return "ok"
 
+    def inject_frame(self, ci, frame, at_head=False):
+        """the server says something of its own accord (e.g. an `error` frame instead of / before an answer)"""
+        c = self.clients[ci]
+        if c.conn is None:
+            return "noop"
+        if at_head:
+            c.conn.s2c.appendleft(dict_to_bytes(frame))
+        else:
+            c.conn.s2c.append(dict_to_bytes(frame))
+        return "ok"
+
     def tamper(self, ci, i, how, arg=0):
         """modify the i-th queued `message` frame addressed to client ci"""
         idx = self.msg_frames(ci)
